@@ -489,7 +489,7 @@ func (fe *FuncEnc) loadAt(st *State, p string, t types.Type) string {
 		return fmt.Sprintf("(|%s| %s)", info.ctor, strings.Join(parts, " "))
 	}
 	h := fe.heapGet(st, fe.eng.memVar(t), arrSort(fe.sorts().sortOf(t)))
-	fe.loadTop = fe.verTop[h]
+	fe.loadTop, fe.loadAddr = fe.verTop[h], p
 	return fmt.Sprintf("(select %s %s)", h, p)
 }
 
@@ -525,7 +525,7 @@ func (fe *FuncEnc) loadField(st *State, p string, t types.Type, i int) string {
 		return fe.loadAt(st, fmt.Sprintf("(hv_sub %s %d)", p, fe.eng.subTag(typeLabel(t), i)), ft)
 	}
 	h := fe.heapGet(st, fe.eng.fieldVar(t, i), arrSort(fe.sorts().sortOf(ft)))
-	fe.loadTop = fe.verTop[h]
+	fe.loadTop, fe.loadAddr = fe.verTop[h], p
 	return fmt.Sprintf("(select %s %s)", h, p)
 }
 
